@@ -41,6 +41,9 @@ type e4Config struct {
 	PingDelayMs int `json:"pingDelayMs,omitempty"`
 	// OnErrorCalls: the OnError callback reads the client's statistics and current BaseClient (an application logging them)
 	OnErrorCalls bool `json:"onErrorCalls,omitempty"`
+	// ChatterUs > 0: from the first connection on the application publishes a QoS0 message every ChatterUs microseconds
+	// (steady outbound traffic); after a peer went silent it goes on for at least 100 keep-alive periods, then stops
+	ChatterUs int `json:"chatterUs,omitempty"`
 	// CancelSubmitCtx: every Publish/Subscribe/Unsubscribe call gets a context of its own that is cancelled as soon as the
 	// call returned (ctx, cancel := WithTimeout(...); defer cancel()), as request-scoped application code does
 	CancelSubmitCtx bool `json:"cancelSubmitCtx,omitempty"`
@@ -548,8 +551,47 @@ func e4RunBody(c e4Case, started chan<- *e4Env) (res *e4Result) {
 	ctx, cancel := context.WithCancel(context.Background())
 	defer cancel()
 	e.ctx = ctx
-	if c.Cfg.AppPingOnSilence {
+	var chatterWG sync.WaitGroup
+	var silentSince int64 // unix nanoseconds of the first silence, 0 = none
+	if c.Cfg.ChatterUs > 0 {
+		prev := b.onSilent
 		b.onSilent = func(bc *vbConn) {
+			atomic.CompareAndSwapInt64(&silentSince, 0, time.Now().UnixNano())
+			if prev != nil {
+				prev(bc)
+			}
+		}
+	}
+	startChatter := func() {
+		if c.Cfg.ChatterUs <= 0 {
+			return
+		}
+		budget := 100 * time.Duration(c.Cfg.PingMs+c.Cfg.PingTimeoutMs) * time.Millisecond
+		if budget < time.Second {
+			budget = time.Second
+		}
+		chatterWG.Add(1)
+		go func() {
+			defer chatterWG.Done()
+			for ctx.Err() == nil {
+				if s := atomic.LoadInt64(&silentSince); s != 0 && time.Since(time.Unix(0, s)) > budget {
+					log.add(0, "CHATTER-END", nil, "")
+					return
+				}
+				if !(c.Cfg.DirectQoS0 && rc.Client() == nil) { // (direct mode needs a client: see the SKIP note in submit)
+					_ = cli.Publish(ctx, &Message{Topic: "chatter", Payload: []byte("c")})
+				}
+				time.Sleep(time.Duration(c.Cfg.ChatterUs) * time.Microsecond)
+			}
+		}()
+	}
+	defer func() { cancel(); chatterWG.Wait() }()
+	if c.Cfg.AppPingOnSilence {
+		prev := b.onSilent
+		b.onSilent = func(bc *vbConn) {
+			if prev != nil {
+				go prev(bc)
+			}
 			log.add(bc.id, "APP-PING", nil, "called")
 			err := cli.Ping(ctx) // no deadline of its own: it ends when the connection does
 			log.add(bc.id, "APP-PING", nil, fmt.Sprintf("returned %v", err))
@@ -632,6 +674,7 @@ func e4RunBody(c e4Case, started chan<- *e4Env) (res *e4Result) {
 
 	startConnect := func() {
 		connStarted = true
+		startChatter()
 		go func() {
 			defer close(connDone)
 			copts := []ConnectOption{WithCleanSession(c.Cfg.CleanSession)}
@@ -810,7 +853,32 @@ func e4RunBody(c e4Case, started chan<- *e4Env) (res *e4Result) {
 				log.add(0, "HANDLE", nil, fmt.Sprintf("handler=%d", s.Extra))
 				continue
 			}
-			bc.cli.mu.RLock()
+			locked := bc.cli
+			if s.Retain {
+				// variant: it is the *next* client whose lock is held (from the moment the dialler hands it out), so that
+				// whatever the reconnect loop does to the new client's handler is held up while Handle is called
+				d.mu.Lock()
+				d.lockNext, d.lockedCli = true, nil
+				d.mu.Unlock()
+				d.release()
+				if !vWaitUntil(10*time.Second, func() bool { d.mu.Lock(); defer d.mu.Unlock(); return d.lockedCli != nil }) {
+					d.mu.Lock()
+					d.lockNext = false
+					d.mu.Unlock()
+					log.add(0, "HANDLE-START", nil, fmt.Sprintf("handler=%d", s.Extra))
+					cli.Handle(e.handler(s.Extra))
+					log.add(0, "HANDLE", nil, fmt.Sprintf("handler=%d", s.Extra))
+					continue
+				}
+				d.mu.Lock()
+				locked = d.lockedCli
+				d.mu.Unlock()
+				for i := 0; i < 50; i++ {
+					runtime.Gosched()
+				}
+			} else {
+				locked.mu.RLock()
+			}
 			hdone := make(chan struct{})
 			log.add(0, "HANDLE-START", nil, fmt.Sprintf("handler=%d stalled", s.Extra))
 			go func() {
@@ -823,7 +891,7 @@ func e4RunBody(c e4Case, started chan<- *e4Env) (res *e4Result) {
 			}
 			d.release()
 			time.Sleep(time.Duration(s.ID) * time.Microsecond)
-			bc.cli.mu.RUnlock()
+			locked.mu.RUnlock()
 			<-hdone
 		case "sleep":
 			time.Sleep(time.Duration(s.Extra) * time.Microsecond)
